@@ -270,6 +270,29 @@ def run(ctx, pid, bdir=None):
                             why = "%s %s: the output contains /%s/" % (case["source"], " ".join(run_.get("args", [])), rx); break
                     if why:
                         break
+            elif kind == "xsd_attrs":
+                # every attribute the adjustment XML carries on an element is declared for that element by xml/gama-local-adjustment.xsd
+                exe = os.path.join(bdir, "gama-local")
+                src = os.path.join(ctx.scratch, "dir_%s_in.gkf" % case["id"])
+                shutil.copyfile(os.path.join(DIR, case["files"][0]), src)
+                xo = os.path.join(ctx.scratch, "dir_%s.xml" % case["id"])
+                rc, out, err = _run([exe, src, "--xml", xo], ctx.scratch)
+                replay["gkf"] = open(src, encoding="latin-1").read()
+                why = _unsafe(rc, out, err)
+                if why is None:
+                    XS = "{http://www.w3.org/2001/XMLSchema}"
+                    xsd = ET.parse(os.path.join(vlib.REPO, "xml/gama-local-adjustment.xsd")).getroot()
+                    declared = {}
+                    for el in xsd.iter(XS + "element"):
+                        if el.get("name"):
+                            declared.setdefault(el.get("name"), set()).update(a.get("name") for a in el.iter(XS + "attribute") if a.get("name"))
+                    for e_ in ET.parse(xo).getroot().iter():
+                        tag = e_.tag.split("}")[-1]
+                        for a_ in e_.attrib:
+                            if a_.split("}")[-1] not in declared.get(tag, set()) and not a_.startswith("{http://www.w3.org/2000/xmlns"):
+                                why = "the adjustment XML carries <%s %s=...>, which xml/gama-local-adjustment.xsd does not declare" % (tag, a_); break
+                        if why:
+                            break
             elif kind == "deterministic":
                 # the same command line with the heap filled by different bytes (glibc MALLOC_PERTURB_): reading memory that was
                 # never written shows up as different results
